@@ -146,10 +146,12 @@ class Computable(BaseObservable):
         computed = getattr(instance, self.private_name)
         old_value = computed._value
 
-        if CURRENT_COMPUTED is not None:
-            CURRENT_COMPUTED._add_parent(instance, self.public_name, old_value)
-
         new_value = computed()
+
+        if CURRENT_COMPUTED is not None:
+            # register the value this read returns, not the value cached before
+            # the parent was brought up to date
+            CURRENT_COMPUTED._add_parent(instance, self.public_name, new_value)
 
         if new_value != old_value:
             instance.notify(
